@@ -177,3 +177,14 @@ def biteq(a, b):
     a = np.asarray(a)
     b = np.asarray(b)
     return a.shape == b.shape and a.dtype == b.dtype and a.tobytes() == b.tobytes()
+
+
+def biteq_nan(a, b):
+    """Bit equality of two float arrays where any NaN matches any NaN (the sign / payload bits of a NaN do not survive
+    a text file and carry no meaning)."""
+    a = np.asarray(a, dtype=float)
+    b = np.asarray(b, dtype=float)
+    if a.shape != b.shape:
+        return False
+    na, nb = np.isnan(a), np.isnan(b)
+    return bool(np.array_equal(na, nb)) and np.where(na, 0.0, a).tobytes() == np.where(nb, 0.0, b).tobytes()
